@@ -82,6 +82,11 @@ Strip(s) == IF s = <<>> THEN <<>>
             ELSE IF s[1] = Caret /\ Len(s) >= 2 /\ IsDigit(s[2]) THEN Strip(SubSeq(s, 3, Len(s)))
             ELSE <<s[1]>> \o Strip(Tail(s))
 
+\* the colour helpers (Colourify): the text with its colour code in front; LFS colours 0..7 and 9 (8 = default colour + Latin-1)
+ColourCode == [black |-> 48, red |-> 49, light_green |-> 50, yellow |-> 51, blue |-> 52, purple |-> 53, light_blue |-> 54,
+               white |-> 55, dark_green |-> 57]
+Colourify(name, s) == <<Caret, ColourCode[name]>> \o s
+
 \* where an escaped string is "wire safe": no reserved character in raw form
 NoRawReserved(e) == \A i \in 1..Len(e) : e[i] \notin Reserved
 \* carets of an escaped string only occur as ^^, ^digit or ^escape-letter
